@@ -158,6 +158,35 @@ CLAIMED['C10'] = dict(
     note='Trusted: Coq kernel; harness. Assumptions (named): FIFO, flush-before-exit, boot, timer as a label. Known hazard (child killed while writing the queue) recorded under C02/C17. No axioms.',
     technique='Coq invariant over an interleaving LTS; real-process correspondence', design='5/C10')
 
+CLAIMED['C17'] = dict(
+    text='Machine-checked proof (Coq 8.16.1): the control skeleton of run_in_process/_run/RunningProcess is REGENERATED from the source '
+         '(fail-closed ast translator) and interpreted over an abstract worker/executor world; theorems for every world: awaiting the '
+         'handle never raises, the outcome shape (value xor exception xor neither, per behaviour), the process is always joined, cleanup '
+         'is a prefix of / equals the full sequence, times ordered, signals never raise before the process is reaped; the handle hangs '
+         'IFF the worker died while writing a log record (C17_hang_iff; refuted/partial pair = the recorded known finding). PARTIAL: '
+         'the executor, spawn and OS signals are an oracle; tie = the real matrix under spawn (outcomes x signals x instants x logging x '
+         'initializer, lingering children) compared with the model.',
+    note='Trusted: Coq kernel; translator run_skeleton.py; harness. Modelled: ProcessPoolExecutor, multiprocessing queues, OS signals. Known finding hang:log-listener-never-ends. No axioms.',
+    technique='Coq interpreter over a skeleton regenerated by an ast translator; real-process matrix correspondence', design='5/C17')
+CLAIMED['C05'] = dict(
+    text='Machine-checked proof (Coq 8.16.1): model of the filter chain (pluggy firstresult LIFO over the registration order REGENERATED '
+         'from the source, skip list regenerated), the per-frame trace status (WithContext) and the bdb/pdb stop logic with CustomizedPdb, '
+         'over arbitrary well-nested raw trace-event streams; theorems: under all-step the prompted lines are exactly the lines of '
+         'accepted frames in order; no prompt in a lambda, outside the script when module tracing is off, in skip-listed modules when on, '
+         'in non-main threads when thread tracing is off; next/continue theorems under explicit stream hypotheses, with refutations '
+         '(= the recorded known findings) where the full statement is false. Tie: generated programs (all small ones + random) through the '
+         'real spawned-side code vs the model fed with the raw stream of an independent reference recorder.',
+    note='Trusted: Coq kernel; translators; reference recorder; harness. Modelled from CPython 3.12.1: trace-event generation, bdb/pdb. Three recorded known findings. No axioms.',
+    technique='Coq induction over event streams; tables regenerated by ast translators; differential correspondence with a reference recorder', design='5/C05')
+CLAIMED['C04'] = dict(
+    text='Machine-checked proof (Coq 8.16.1), PARTIAL: the traceback-cleaning functions (_remove_frame, both clean_exception) are pinned/transcribed '
+         'from the source and proved to leave exactly the user frames (user traceback, compile-time SyntaxError, KeyboardInterrupt in a '
+         'trace call), and the debugger model consumes the event stream without feeding back into it. Equality of stdout / return value / '
+         'exception between a traced and an untraced run is a CPython guarantee that a model cannot exhibit: it is validated differentially '
+         '(generated programs x statement forms x resuming policies x flags, traced vs reference). Two recorded known findings (Ctrl-C at a prompt).',
+    note='Trusted: Coq kernel; translator tb_funs.py; reference runs. No axioms.',
+    technique='Coq algebraic lemmas on tracebacks + differential runs', design='5/C04')
+
 NOT_YET = {
 }
 
